@@ -63,11 +63,22 @@ func runOptOrder(tape *simrt.Tape, keep bool) simrt.Outcome {
 		{"Timeout", vegeta.Timeout(time.Second)},
 		{"DNSCaching(-1)", vegeta.DNSCaching(-1)},
 		{"Redirects", vegeta.Redirects(3)},
+		// swaps the client's transport for an HTTP/2 one that dials through the HTTP/1 transport's dial function
+		{"H2C(true)", vegeta.H2C(true)},
 	}
 	// 1..3 other options, the mapping at a tape-chosen position among them
+	// (KeepAlive, LocalAddr, Connections, MaxConnections, HTTP2 and H2C assert that the client's transport is an
+	// *http.Transport and panic when they are applied after H2C(true) has replaced it - at construction, before
+	// any dial, and outside what C18 states; after H2C the probe draws from the options that check the type)
 	var seq []namedOpt
+	h2c := false
 	for i, n := 0, 1+tape.Choose(3); i < n; i++ {
-		seq = append(seq, others[tape.Choose(len(others))])
+		o := others[tape.Choose(len(others))]
+		if h2c {
+			o = []namedOpt{others[6], others[7], others[8]}[tape.Choose(3)]
+		}
+		h2c = h2c || o.name == "H2C(true)"
+		seq = append(seq, o)
 	}
 	at := tape.Choose(len(seq) + 1)
 	seq = append(seq[:at:at], append([]namedOpt{mapping}, seq[at:]...)...)
@@ -94,6 +105,17 @@ func runOptOrder(tape *simrt.Tape, keep bool) simrt.Outcome {
 		}
 	}
 	sort.Strings(late)
+	h2cBefore := false
+	for _, n := range names[:at] {
+		h2cBefore = h2cBefore || n == "H2C(true)"
+	}
+	cause := "other"
+	switch {
+	case h2cBefore:
+		cause = "h2c-applied-before-the-mapping"
+	case len(late) > 0:
+		cause = "dialer-option-applied-after-the-mapping"
+	}
 	switch {
 	case len(seen) == 1 && seen[0] == "10.9.9.1:8000":
 		stats["probe.mapping-in-force"]++
@@ -104,7 +126,12 @@ func runOptOrder(tape *simrt.Tape, keep bool) simrt.Outcome {
 	case len(seen) == 0:
 		viol = &simrt.Violation{Prop: "C18", Class: "C18.option-order-discards-mapping",
 			Msg:  fmt.Sprintf("options applied in the order [%s]: a dial to the mapped address svc.test:80 never reaches the dial function below ConnectTo (it ended with: %v) - the mapping installed by ConnectTo was replaced", strings.Join(names, ", "), err),
-			Tags: map[string]string{"cause": map[bool]string{true: "dialer-option-applied-after-the-mapping", false: "other"}[len(late) > 0], "replaced_by": strings.Join(late, "+")}}
+			Tags: map[string]string{"cause": cause, "replaced_by": strings.Join(late, "+")}}
+	case len(seen) == 1 && seen[0] == "svc.test:80":
+		// the dial function below the mapping was reached with the original address: the mapping was never installed
+		viol = &simrt.Violation{Prop: "C18", Class: "C18.option-order-discards-mapping",
+			Msg:  fmt.Sprintf("options applied in the order [%s]: a dial to the mapped address svc.test:80 reaches the dial function below ConnectTo as svc.test:80 - ConnectTo installed nothing", strings.Join(names, ", ")),
+			Tags: map[string]string{"cause": cause}}
 	default:
 		viol = &simrt.Violation{Prop: "C18", Class: "C18.option-order-wrong-address",
 			Msg: fmt.Sprintf("options applied in the order [%s]: the mapped address svc.test:80 was dialled as %q, the mapping says 10.9.9.1:8000", strings.Join(names, ", "), seen)}
